@@ -47,30 +47,52 @@ impl<'a> Conn<'a> {
     }
 }
 
+/// The request body payload as a server would decode it from the wire. Strict: anything that is not a sequence of
+/// well-formed chunks followed by exactly one terminator (and nothing after it) is reported as malformed.
 fn decode_wire(wire: &[u8], chunked: bool) -> Vec<u8> {
     if !chunked {
         return wire.to_vec();
     }
     let mut out = vec![];
     let mut pos = 0;
+    let mut ended = false;
     while pos < wire.len() {
         let e = match (pos..wire.len().saturating_sub(1)).find(|&i| wire[i] == b'\r' && wire[i + 1] == b'\n') {
             Some(e) => e,
-            None => break,
+            None => {
+                out.extend(b"<unterminated size line>");
+                return out;
+            }
         };
         let n = usize::from_str_radix(std::str::from_utf8(&wire[pos..e]).unwrap_or("x").split(';').next().unwrap_or("x").trim(), 16).unwrap_or(usize::MAX);
         if n == usize::MAX {
-            out.extend(b"<bad chunk>");
-            break;
+            out.extend(b"<bad chunk size>");
+            return out;
         }
         pos = e + 2;
         if n == 0 {
-            out.extend(b"<end>");
-            break;
+            // last-chunk: the empty line must follow and nothing else
+            if wire.len() >= pos + 2 && &wire[pos..pos + 2] == b"\r\n" {
+                pos += 2;
+                ended = true;
+                out.extend(b"<end>");
+                if pos != wire.len() {
+                    out.extend(b"<bytes after the terminator>");
+                }
+            } else {
+                out.extend(b"<incomplete terminator>");
+            }
+            return out;
         }
-        let end = (pos + n).min(wire.len());
-        out.extend(&wire[pos..end]);
-        pos = end + 2;
+        if pos + n + 2 > wire.len() || &wire[pos + n..pos + n + 2] != b"\r\n" {
+            out.extend(b"<chunk data not followed by CRLF>");
+            return out;
+        }
+        out.extend(&wire[pos..pos + n]);
+        pos += n + 2;
+    }
+    if !ended {
+        out.extend(b"<no terminator>");
     }
     out
 }
@@ -477,7 +499,9 @@ pub fn c01(o: &Opts, t: &mut Tracer) -> Value {
         let mut scheds: Vec<Sched> = vec![Sched { arrivals: vec![], send_sizes: big.clone(), read_sizes: big.clone(), queries: 0, name: "reference".into() }];
         let allowed = |p: usize| p > 0 && p < total && !forbidden.iter().any(|&(a, b)| p >= a && p <= b);
         let reqline = rq_final.reqline_len();
-        let send_opts: Vec<Vec<usize>> = vec![vec![reqline, 1 << 16], vec![reqline - 1, 64, 1 << 16], vec![1, 6, 7, 11, 64, 4096], vec![6, 1 << 16], vec![7, 300], vec![11, 64, 1 << 14]];
+        let send_opts: Vec<Vec<usize>> = vec![vec![reqline, 1 << 16], vec![reqline - 1, 64, 1 << 16], vec![1, 6, 7, 11, 64, 4096], vec![6, 1 << 16], vec![7, 300], vec![11, 64, 1 << 14],
+                                              // buffers smaller than the chunked terminator (and than any head line) in the rotation
+                                              vec![3, 1 << 12, 2, 64, 4, 300], vec![4, 2, 3, 1 << 16]];
         let read_opts: Vec<Vec<usize>> = vec![vec![0, 1 << 16], vec![1], vec![2, 0, 3], vec![3, 1 << 12], vec![1 << 16]];
         let nsingle = if o.quick() { 24 } else { 60 };
         for k in 0..nsingle {
@@ -508,7 +532,7 @@ pub fn c01(o: &Opts, t: &mut Tracer) -> Value {
             let mut arr: Vec<usize> = (0..n).map(|_| rng.gen_range(1..total.max(2))).filter(|&p| allowed(p)).collect();
             arr.sort();
             arr.dedup();
-            let ss: Vec<usize> = (0..3).map(|_| [1usize, 5, 6, 7, 11, 20, 21, 64, 1024, 1 << 16][rng.gen_range(0..10)]).chain(std::iter::once(1 << 14)).collect();
+            let ss: Vec<usize> = (0..3).map(|_| [1usize, 5, 6, 7, 11, 20, 21, 64, 1024, 1 << 16, 2, 3, 4][rng.gen_range(0..13)]).chain(std::iter::once(1 << 14)).collect();
             let rs: Vec<usize> = (0..3).map(|_| [0usize, 1, 2, 3, 100, 1 << 16][rng.gen_range(0..6)]).chain(std::iter::once(512)).collect();
             scheds.push(Sched { arrivals: arr, send_sizes: ss, read_sizes: rs, queries: 1000 + k as u64, name: format!("random-{}", k) });
         }
